@@ -40,10 +40,14 @@ Record Defects := {
   d_unordered : bool;             (* Ordered=false services: index check skipped, "batch_ibtp", no timeout bookkeeping *)
   d_tl_empty_head : bool;         (* TransactionManager.addToTimeoutList appends ",gid" to an existing empty value *)
   d_delete_interchain : bool;     (* public DeleteInterchain removes a service's counters for any caller *)
-  d_late_child : bool             (* BeginMultiTXs accepts a new child of a group whose global state is final *)
+  d_late_child : bool;            (* BeginMultiTXs accepts a new child of a group whose global state is final *)
+  d_fail_ndst_lost : bool;        (* Report: on a failure receipt the children are overwritten with BEGIN_FAILURE before
+                                     the SUCCESS ones are collected, so NotifyDstIBTPIDs is always empty *)
+  d_interhub_timeout : bool       (* setTimeoutList registers H+T for a request to a remote BitXHub although the
+                                     transaction manager recorded "no timeout" for it (source-hub role) *)
 }.
-Definition cfg_fixed : Defects := Build_Defects false false false false false false false.
-Definition cfg_faithful : Defects := Build_Defects true true true true true true true.
+Definition cfg_fixed : Defects := Build_Defects false false false false false false false false false.
+Definition cfg_faithful : Defects := Build_Defects true true true true true true true true true.
 
 (** * records *)
 Record ginfo := {
@@ -174,8 +178,8 @@ Fixpoint child_set (i : txid) (s : N) (l : list (txid * N)) : list (txid * N) :=
 Definition children_all (s : N) (l : list (txid * N)) : list (txid * N) :=
   map (fun p => (fst p, s)) l.
 
-(** [BeginMultiTXs] *)
-Definition tm_begin_multi (cfg : Defects) (t : txm) (cur : N) (g : gid) (i : txid) (T : N)
+(** [BeginMultiTXs]; [sorted] = [sort.Strings] on ids (supplied by the caller, who knows their textual form) *)
+Definition tm_begin_multi (cfg : Defects) (sorted : list txid -> list txid) (t : txm) (cur : N) (g : gid) (i : txid) (T : N)
            (failed : bool) (count : N) : option tmres :=
   match tm_glob t g with
   | None =>
@@ -195,23 +199,23 @@ Definition tm_begin_multi (cfg : Defects) (t : txm) (cur : N) (g : gid) (i : txi
               let kids := child_set i (g_state gi) (g_children gi) in
               let gi' := Build_ginfo (g_state gi) (g_height gi) kids (g_count gi) in
               Some (TmOk (set_child (set_glob t g gi') i g)
-                         (Build_change None (g_state gi) [] [] (map fst kids) false))
+                         (Build_change None (g_state gi) [] [] (sorted (map fst kids)) false))
           else if failed then
-            let nsrc := map fst (g_children gi) in
-            let ndst := map fst (filter (fun p => snd p =? ST_SUCCESS) (g_children gi)) in
+            let nsrc := sorted (map fst (g_children gi)) in
+            let ndst := sorted (map fst (filter (fun p => snd p =? ST_SUCCESS) (g_children gi))) in
             let kids := child_set i ST_BEGIN_FAILURE (children_all ST_BEGIN_FAILURE (g_children gi)) in
             let gi' := Build_ginfo ST_BEGIN_FAILURE (g_height gi) kids (g_count gi) in
             match tm_remove_timeout t (g_height gi) (TGid g) with
             | Some t1 =>
                 Some (TmOk (set_child (set_glob t1 g gi') i g)
-                           (Build_change None ST_BEGIN_FAILURE nsrc ndst (map fst kids) false))
+                           (Build_change None ST_BEGIN_FAILURE nsrc ndst (sorted (map fst kids)) false))
             | None => None
             end
           else
             let kids := child_set i ST_BEGIN (g_children gi) in
             let gi' := Build_ginfo (g_state gi) (g_height gi) kids (g_count gi) in
             Some (TmOk (set_child (set_glob t g gi') i g)
-                       (Build_change None ST_BEGIN [] [] (map fst kids) false))
+                       (Build_change None ST_BEGIN [] [] (sorted (map fst kids)) false))
       end
   end.
 
@@ -243,7 +247,7 @@ Definition change_multi (gi : ginfo) (i : txid) (r : N) : option (ginfo * bool) 
 
 (** [Report]; [sorted] sorts ChildIBTPIDs the way [sort.Strings] does (supplied by the caller,
     who knows the textual form of the ids) *)
-Definition tm_report (sorted : list txid -> list txid) (t : txm) (i : txid) (r : N) : option tmres :=
+Definition tm_report (cfg : Defects) (sorted : list txid -> list txid) (t : txm) (i : txid) (r : N) : option tmres :=
   match tm_rec t i with
   | Some (hh, st) =>
       match set_fsm st (event_of_receipt r) with
@@ -267,9 +271,11 @@ Definition tm_report (sorted : list txid -> list txid) (t : txm) (i : txid) (r :
                       let cur := g_state gi' in
                       let others := filter (fun p => negb (txid_eqb (fst p) i)) (g_children gi') in
                       let tofail := (prev =? ST_BEGIN) && (cur =? ST_BEGIN_FAILURE) in
+                      let seen := if d_fail_ndst_lost cfg then others
+                                  else filter (fun p => negb (txid_eqb (fst p) i)) (g_children gi) in
                       let ndst := if tofail
-                                  then map fst (filter (fun p => snd p =? ST_SUCCESS) others) else [] in
-                      let ch := Build_change (Some prev) cur (map fst others) ndst
+                                  then map fst (filter (fun p => snd p =? ST_SUCCESS) seen) else [] in
+                      let ch := Build_change (Some prev) cur (sorted (map fst others)) (sorted ndst)
                                              (sorted (map fst (g_children gi')))
                                              (tofail && negb (match others with [] => true | _ => false end)) in
                       let t1 := if rm then tm_remove_timeout t (g_height gi) (TGid g) else Some t in
